@@ -166,7 +166,7 @@ var curated = []string{
 	"T | as __subquery1 | where x > 1 | count", "__subquery0 | where a > 1 | count", "T | as __subquery0 | project a | as __subquery1 | summarize count() by a | where a > 1",
 	"T | join (__subquery0 | where b > 1) on k | project `$left`, `$right`", "let __subquery0 = 1; T | where a == __subquery0 | count | where a > 0",
 	// signed and otherwise unusual row counts
-	"T | take -1", "T | limit -n", "T | top -3 by x", "T | take -(2)", "T | take - 5 | count", "T | top +3 by x", "T | take x", "T | take 'five'", "T | top 1e3 by a",
+	"T | take -1", "T | limit -n", "T | top -3 by x", "T | take - 5 | count", "T | top +3 by x", "T | take x", "T | take 'five'", "T | top 1e3 by a",
 	// names that differ only in case (parameters, lets, references in a third spelling)
 	"T | take limit", "T | where x > cutoff and y == Kind | take Limit", "let Cutoff = 1; let CUTOFF = 2; T | where x > cutoff",
 	"let KIND = 7; T | where y == kind", "let x = 1; let X = 2; T | where a == x and b == X and c == `x`", "t | join (T) on K, k",
